@@ -36,6 +36,29 @@ def workdir():
     return _work
 
 
+_irdump_ok = False
+import threading
+_irdump_lock = threading.Lock()
+
+
+def ensure_irdump():
+    """bin/irdump is built from tools/irdump.cc (MANIFEST setup_cmd); rebuild it here when it is missing or older than its source"""
+    global _irdump_ok
+    if _irdump_ok:
+        return
+    with _irdump_lock:
+        if _irdump_ok:
+            return
+        srcp = os.path.join(VERIF, 'tools', 'irdump.cc')
+        if not os.path.exists(IRDUMP) or os.path.getmtime(IRDUMP) < os.path.getmtime(srcp):
+            os.makedirs(os.path.dirname(IRDUMP), exist_ok=True)
+            fl = subprocess.run(['llvm-config-14', '--cxxflags'], capture_output=True, text=True).stdout.split()
+            p = subprocess.run(['clang++'] + fl + ['-fno-rtti', srcp, '-o', IRDUMP, '/usr/lib/llvm-14/lib/libLLVM-14.so'], capture_output=True, text=True)
+            if p.returncode != 0:
+                raise AnalysisBroken('cannot build tools/irdump.cc: ' + p.stderr[-400:])
+        _irdump_ok = True
+
+
 _db = None
 
 
@@ -89,6 +112,7 @@ def _run(cmd, **kw):
 
 def build_unit(src, flags, mode='m2r', config='host', hooks=True, outdir=None, want_json=True, extra=()):
     """mode: m2r (O0 + mem2reg, -g) | O2 | Os ; returns (ll_path, json_path)"""
+    ensure_irdump()
     outdir = outdir or os.path.join(workdir(), '%s-%s%s' % (mode, config, '-h' if hooks else ''))
     os.makedirs(outdir, exist_ok=True)
     b = unit_name(src)
